@@ -2,7 +2,7 @@ SPECIFICATION Spec
 CONSTANTS MaxLen = 3
           MaxPolls = 3
           Wide = TRUE
-          Fixes = {}
+          Fixes = {"D2", "D3"}
 INVARIANT Total
 INVARIANT ExecBound
 INVARIANT StoreBounded
